@@ -11,7 +11,7 @@ use crate::Result;
 use log::trace;
 
 use crate::block::{Block, BlockRet};
-use crate::stream::{ReadStream, WriteStream};
+use crate::stream::{ReadStream, Tag, WriteStream};
 use crate::{Complex, Float};
 
 /// FFT engine.
@@ -199,6 +199,8 @@ pub struct FftFilter<T: Engine> {
     nsamples: usize,
     fft_size: usize,
     tail: Vec<Complex>,
+    /// Tags of the samples collected in `buf`, positions relative to `buf`.
+    tags: Vec<Tag>,
     engine: T,
     #[rustradio(in)]
     src: ReadStream<Complex>,
@@ -246,6 +248,7 @@ impl<T: Engine> FftFilter<T> {
                 dst,
                 fft_size,
                 tail: vec![Complex::default(); engine.tap_len()],
+                tags: Vec::new(),
                 engine,
                 buf: Vec::with_capacity(fft_size),
                 nsamples,
@@ -275,6 +278,13 @@ impl<T: Engine> Block for FftFilter<T> {
             let (input, tags) = self.src.read_buf()?;
             // Read so that self.buf contains exactly self.nsamples samples.
             let add = std::cmp::min(input.len(), self.nsamples - self.buf.len());
+            // Tags of the samples taken now, at their position in the batch.
+            let base = self.buf.len();
+            self.tags
+                .extend(tags.into_iter().filter(|t| t.pos() < add).map(|mut t| {
+                    t.set_pos(t.pos() + base);
+                    t
+                }));
             self.buf.extend(input.iter().take(add).copied());
             input.consume(add);
             if self.buf.len() < self.nsamples {
@@ -297,7 +307,8 @@ impl<T: Engine> Block for FftFilter<T> {
             // Output.
             // TODO: needless copy?
             o.fill_from_slice(&self.buf[..self.nsamples]);
-            o.produce(self.nsamples, &tags);
+            o.produce(self.nsamples, &self.tags);
+            self.tags.clear();
 
             // Stash tail.
             for i in 0..self.tail.len() {
@@ -389,6 +400,8 @@ impl<T: Engine> Block for FftFilterFloat<T> {
             for (i, samp) in outer_in.iter().take(n).enumerate() {
                 o[i] = Complex::new(*samp, 0.0);
             }
+            // Only tags of the samples actually copied.
+            let tags: Vec<_> = tags.into_iter().filter(|t| t.pos() < n).collect();
             inner_to.produce(n, &tags);
             outer_in.consume(n);
         }
@@ -408,6 +421,7 @@ impl<T: Engine> Block for FftFilterFloat<T> {
                 o[i] = samp.re;
             }
             inner_from.consume(n);
+            let tags: Vec<_> = tags.into_iter().filter(|t| t.pos() < n).collect();
             outer_to.produce(n, &tags);
         }
 
